@@ -796,13 +796,14 @@ class KernelCpu:
                     assert isinstance(
                         value._buffer.context, ContextCpu
                     ), f"Incompatible context for argument `{arg.name}`."
+                    # address inside the buffer's own storage (slicing a
+                    # bytearray would hand a temporary copy to the kernel)
+                    buf = np.frombuffer(value._buffer.buffer, dtype="int8")
+                    ptr = (
+                        buf.ctypes.data + value._offset + value._data_offset
+                    )  # fails for pyopencl, cuda
                     return self.ffi_interface.cast(
-                        value._itemtype._c_type + "*",
-                        self.ffi_interface.from_buffer(
-                            value._buffer.buffer[
-                                value._offset + value._data_offset :
-                            ]  # fails for pyopencl, cuda
-                        ),
+                        value._itemtype._c_type + "*", ptr
                     )
             else:
                 raise ValueError(
